@@ -191,6 +191,7 @@ func c19Exec(op string) string {
 			err = ms.JsonFile(file)
 		}
 	case "gob":
+		gobEmpty := false
 		for i, m := range ms {
 			g, gerr := m.Gob()
 			if gerr != nil {
@@ -199,8 +200,12 @@ func c19Exec(op string) string {
 			}
 			back, berr := mxj.NewMapGob(g)
 			if berr != nil || !deepEq(map[string]interface{}(back), map[string]interface{}(m)) {
-				notes = append(notes, fmt.Sprintf("NewMapGob(Gob(m)) differs from m for Map %d", i))
-				break
+				if berr == nil && deepEq(nilToEmpty(map[string]interface{}(back)), nilToEmpty(map[string]interface{}(m))) {
+					gobEmpty = true
+				} else {
+					notes = append(notes, fmt.Sprintf("NewMapGob(Gob(m)) differs from m for Map %d", i))
+					break
+				}
 			}
 			cp, cerr := m.Copy()
 			if cerr != nil || !deepEq(map[string]interface{}(cp), map[string]interface{}(m)) {
@@ -220,10 +225,18 @@ func c19Exec(op string) string {
 		}
 		for i, g := range blobs {
 			back, berr := mxj.NewMapGob(g)
+			if berr == nil && deepEq(nilToEmpty(map[string]interface{}(back)), nilToEmpty(map[string]interface{}(ms[i]))) {
+				continue // (equal up to nil-versus-empty lists: reported above as GOBEMPTY)
+			}
 			if berr != nil || !deepEq(map[string]interface{}(back), map[string]interface{}(ms[i])) {
 				notes = append(notes, fmt.Sprintf("GOBLIST NewMapGob of the kept encoding of Map %d differs from the Map after later Gob() calls", i))
 				break
 			}
+		}
+		if gobEmpty && len(notes) == 0 {
+			// (reported only when nothing else is wrong with the case: the recorded finding must
+			// not hide another failure of the same case)
+			notes = append(notes, "GOBEMPTY an empty list comes back from NewMapGob(Gob(m)) as a nil list")
 		}
 		return "ok | " + strings.Join(notes, "; ")
 	}
@@ -310,6 +323,25 @@ func c19Exec(op string) string {
 		}
 	}
 	return "ok | " + strings.Join(notes, "; ")
+}
+
+// nilToEmpty replaces nil lists by empty ones (encoding/gob does not tell them apart).
+func nilToEmpty(v interface{}) interface{} {
+	switch x := v.(type) {
+	case map[string]interface{}:
+		o := make(map[string]interface{}, len(x))
+		for k, e := range x {
+			o[k] = nilToEmpty(e)
+		}
+		return o
+	case []interface{}:
+		o := make([]interface{}, len(x))
+		for i, e := range x {
+			o[i] = nilToEmpty(e)
+		}
+		return o
+	}
+	return v
 }
 
 func firstLine(s string) string {
@@ -411,6 +443,8 @@ func (r *Rng) jsonFileMap(depth int) map[string]interface{} {
 		switch {
 		case depth < 2 && r.P(30):
 			m[k] = r.jsonFileMap(depth + 1)
+		case r.P(6):
+			m[k] = []interface{}{}
 		case r.P(15):
 			m[k] = []interface{}{r.Pick(jsonStreamStrs), float64(r.Intn(9))}
 		case r.P(20):
